@@ -44,6 +44,8 @@ def cases(tier):
             yield {'m': 'two_step', 'k': [k1, k2, k3], 'mm': m}
     for n in range(1, 7 if q else 9):
         yield {'m': 'qft', 'n': n}
+        # history: larger circuits were built in the same process just before (sizes in non-monotone order)
+        yield {'m': 'qft', 'n': n, 'before': [n + 2, n + 1]}
     for n in ([1, 2, 3] if q else [1, 2, 3, 4]):
         yield {'m': 'qfan', 'n': n}
     yield {'m': 'qfa'}
@@ -63,6 +65,12 @@ def cases(tier):
     for dim in (1, 2, 3):
         for level in (1, 2, 3):
             yield {'m': 'cantor', 'dim': dim, 'level': level}
+    for level in (4, 5, 6):            # deeper levels in low dimension (3^level cells per direction)
+        yield {'m': 'cantor', 'dim': 1, 'level': level}
+        if level <= 5:            # (multisponge / vicsek_fractal are documented for dimension > 1)
+            yield {'m': 'multisponge', 'dim': 2, 'level': level}
+            yield {'m': 'vicsek', 'dim': 2, 'level': level}
+            yield {'m': 'cantor', 'dim': 2, 'level': level}
     for dim in ((2, 3) if q else (2, 3, 4)):
         for level in ((1, 2, 3) if dim < 4 else (1, 2)):
             yield {'m': 'multisponge', 'dim': dim, 'level': level}
@@ -166,6 +174,8 @@ def run_case(case, seed):
         elif m == 'qft':
             n = case['n']; N = 2 ** n
             for name, f, sign in (('qft', mdl.qft, 1), ('iqft', mdl.iqft, -1)):
+                for nb in case.get('before', []):
+                    f(nb)
                 G = f(n)
                 r.true(name + ':groups', isinstance(G, list) and len(G) == n, 'number of gate groups')
                 P = np.eye(N, dtype=complex)
